@@ -93,6 +93,11 @@ REDEF_SETS = {
 }
 AFTER = " after PHASES redefinition"      # part of every fingerprint raised in the redefinition history
 
+# the engine accepts the pressure unknown of a fixed-volume gas phase when it is within 1e-3 atm of the sum of the partial
+# pressures (finding F16 of C15 / C10): at the low end of the statement's pressure range the REPORTED pressure can then be off
+# by more than 1e-4 relative although moles, volume and saturation indices satisfy the equation of state
+P_ABS_ENGINE = 1e-3
+P_ABS_NOTE = " reported pressure within the engine's absolute tolerance of 1e-3 atm"
 TOL_EOS = 1e-4        # statement: P, V, T, n satisfy the equation of state, relative 1e-4
 TOL_PHI = 1e-6        # statement: fugacity coefficient matches the equation of state, 1e-6
 TOL_ID = 1e-4         # identities without a tolerance in the statement (x_i P, sum p_i = P, phi_i p_i = 10^SI_i): see run()
@@ -423,7 +428,7 @@ class Judge:
                     self.flags.add("one-root")
                     self.stat("eos-PR", r)
                     if r > TOL_EOS:
-                        self.bad("eos Peng-Robinson %s %s" % (label, tag),
+                        self.bad("eos Peng-Robinson %s %s%s" % (label, tag, P_ABS_NOTE if c["type"] == "V" and abs(Pe - PP) <= P_ABS_ENGINE else ""),
                                  "P=%r V/n=%r T=%r x=%r: PR pressure at this molar volume %r (rel %.3g), PR molar volume at this pressure %r (rel %.3g); case %r" % (
                                      PP, VM, T, dict(zip(names, x)), Pe, rP, [float(z * G.R * T / PP) for z in roots], rV, c))
                 else:
@@ -478,7 +483,8 @@ class Judge:
                              "%s: reported P=%r V=%r n=%r T=%r: V/n=%r has %s; 10^SI = %r = 2^%d x phi*p = %r * %r; case %r" % (
                                  names[k], P, V, ntot, T, vm_cols, "V/n <= b" if vm_cols <= mix.b else "negative PR pressure %r" % mix.pressure(vm_cols), t, k2, phi[k], p[k], c))
                 else:
-                    self.bad("fugacity vs SI %s" % tag, "%s: phi*p = %r * %r = %r but 10^SI = 10^%r = %r (rel %.3g); case %r" % (names[k], phi[k], p[k], f, si[k], t, r, c))
+                    self.bad("fugacity vs SI %s%s" % (tag, P_ABS_NOTE if c["type"] == "V" and phi[k] > 0 and abs(f - t) / phi[k] <= P_ABS_ENGINE else ""),
+                             "%s: phi*p = %r * %r = %r but 10^SI = 10^%r = %r (rel %.3g); case %r" % (names[k], phi[k], p[k], f, si[k], t, r, c))
         # (f) a fixed-pressure phase exists only if the equilibrium partial pressures reach the fixed pressure
         if c["type"] == "P":
             s = sum(p10(si[k]) / phi[k] for k in range(len(names)) if phi[k] > 0 and si[k] > -90)
